@@ -9,7 +9,7 @@
 From Coq Require Import String.
 From Emmet Require Import lib.Base lib.StyleLib model.CssTokenizer model.CssParser model.Score model.Color
      model.CssSnippets model.CssResolve model.CssFormat proofs.CssTokenizerProofs
-     proofs.StyleProofs proofs.StyleDashProofs.
+     proofs.StyleProofs proofs.StyleDashProofs proofs.StyleValueProofs.
 Local Open Scope N_scope.
 
 (* ---- colours: printing never changes the value *)
@@ -158,7 +158,46 @@ Theorem C05_one_property_per_line :
 Proof. exact stringify_lines. Qed.
 Print Assumptions C05_one_property_per_line.
 
-(* END-TO-END-PLACEHOLDER *)
+(* ---- end to end.
+   FULL STATEMENT (value_seq_expand): for every key k of a property snippet and every sequence of numbers /
+   colours rendered with the statement's connectors (`-` after a unitless number or a colour, juxtaposition or
+   sign after a unit), optional `!`:
+       expand (k ++ rendered values) = <property><between><values by the unit / colour rules, joined by " ">
+                                       [" !important"]<after>.
+   PROVED (_partial): everything from the TOKEN LIST on, for ALL value sequences, all snippet tables and all
+   configurations without context / JSON: parser (C05_parser_value_seq), resolver + unit rule + formatter
+   (C05_value_seq_expand_partial).  MISSING: the scanner step "the rendered string tokenizes into exactly that
+   token list" for arbitrary digit strings; what is proved about it are the per-round dash-rule theorems above and
+   the tiling/losslessness theorems of C18; the harness compares the whole pipeline on the product grammar. *)
+Theorem C05_parser_value_seq :
+  forall (lit0 b : ctoken) key ts vs bang,
+    ck lit0 = CLiteral key ->                 (* the property name *)
+    body_of ts vs ->                          (* numbers / colours [vs] with any `-` / `:` delimiters in between *)
+    vs <> [] -> k_is_important (ck b) = true ->
+    parser false (lit0 :: ts ++ bang_tail bang b) = Ok [mkProp (Some key) [map tokv vs] bang false].
+Proof. exact parser_value_seq. Qed.
+Print Assumptions C05_parser_value_seq.
+
+(* [value_text cfg prop t]: a number prints frac(value, 4) ++ unit_spec ...; a colour prints color(r, g, b, a, shortHex) *)
+Theorem C05_value_seq_expand_partial :
+  forall cfg sn abbr (lit0 b : ctoken) key key' prop value kws deps ts vs bang,
+    ctokenize false abbr = CTOk (lit0 :: ts ++ bang_tail bang b) ->
+    ck lit0 = CLiteral key -> body_of ts vs -> k_is_important (ck b) = true ->
+    c_context cfg = None -> c_json cfg = false ->
+    str_eqb key gradient_name = false ->
+    find_best_match sn_key key sn (c_min_score cfg) true = Some (SnProp key' prop value kws deps) ->
+    get_unmatched_part key key' 0 = [] ->     (* e.g. key' = key: C05_unmatched_part_same; C06_keys_reach_self gives the match *)
+    vs <> [] ->
+    expand_with cfg sn abbr =
+    Ok (push_string cfg (prop ++ c_between cfg) ++
+        join [c_space] (map (value_text cfg prop) vs) ++
+        (if bang then lit " !important" else []) ++ c_after cfg).
+Proof. exact value_seq_expand_from_tokens. Qed.
+Print Assumptions C05_value_seq_expand_partial.
+
+Theorem C05_unmatched_part_same : forall k, get_unmatched_part k k 0 = [].
+Proof. exact get_unmatched_part_same. Qed.
+Print Assumptions C05_unmatched_part_same.
 
 (* non-vacuity: c#e7bc0b (the repaired defect), a short colour, an rgba colour, units *)
 Example C05_nonvacuous :
@@ -168,3 +207,16 @@ Example C05_nonvacuous :
   color 255 255 255 (mkDec false 5 1) true = lit "rgba(255, 255, 255, 0.5)" /\
   parse_color (lit "fc0") (lit ".5") = Some (255, 204, 0, mkDec false 5 1).
 Proof. vm_compute. repeat split; reflexivity. Qed.
+
+(* the hypotheses of the end-to-end theorem are satisfiable: "m10-#fc0-5e!" has the token shape it asks for *)
+Example C05_value_seq_nonvacuous :
+  exists lit0 b ts vs,
+    ctokenize false (lit "m10-#fc0-5e!") = CTOk (lit0 :: ts ++ bang_tail true b) /\
+    ck lit0 = CLiteral (lit "m") /\ body_of ts vs /\ k_is_important (ck b) = true /\ length vs = 3%nat.
+Proof.
+  eexists (mkCTok _ _ _), (mkCTok _ _ _), [_; _; _; _; _], _. split; [vm_compute; reflexivity|].
+  split; [reflexivity|]. split.
+  - apply body_val; [reflexivity|]. apply body_delim; [reflexivity|]. apply body_val; [reflexivity|].
+    apply body_delim; [reflexivity|]. apply body_val; [reflexivity|]. apply body_nil.
+  - split; reflexivity.
+Qed.
